@@ -1,11 +1,16 @@
 /- Line-protocol driver for M8 Isolation.
    csr <sources> | <indicator> | <indptr> | <indices> | <data> | <nconn>            -> final indicator (comma separated)
-   net <n> | <a> <b> <valve01> <user> <internal>, ... | <initOrder> | <sources> | <ops>
+   net <n> | <a> <b> <kind 0 pipe 1 pump 2 valve> <user> <internal>, ... | <initOrder> | <sources> | <ops>
         ops: U<k>=<v> (user status action)  I<k>=<v> (internal status action)  u (update graph)  g (get isolated)  p (u then g)
+             P / G (= p / g, printing also the previously-isolated sets the call started from)  R (run_sim starts again: seed + init)
+             s (store_results_in_network: prints the flags)  r (save_results: prints statuses and flags)
         -> `init ...` segment then one segment per op, separated by " | "
+   legs <n> | <links> | <initOrder> | <sources> | <leg> ; <leg> ...     leg = <pass> / <pass> ...   pass = <acts> > <acts> > <report01>
+        -> the rows of Model/IsolationRun.lean `runLegs` from a flag-free network, separated by " | "
 -/
 import WntrModel.Model.Isolation
 import WntrModel.Model.IsolationStatic
+import WntrModel.Model.IsolationRun
 open Wntr.Isolation
 
 def nats (s : String) : List Nat :=
@@ -20,8 +25,9 @@ def bits (l : List Bool) : String := String.join (l.map fun b => if b then "1" e
 
 def parseOp (t : String) : Option Op :=
   if t == "u" then some .update
-  else if t == "g" then some .isolated
-  else if t == "p" then some .prepare
+  else if t == "g" || t == "G" then some .isolated
+  else if t == "p" || t == "P" then some .prepare
+  else if t == "R" then some .restart
   else
     let body := (t.drop 1).toString
     match body.splitOn "=" with
@@ -42,36 +48,89 @@ def showMulti (m : List ((Nat × Nat) × List Nat)) : String :=
 def showIso (s : Sim) : String :=
   s!"J={bits s.isoJ} L={bits s.isoL} PJ={commaN s.prevIsoJ} PL={commaN s.prevIsoL}"
 
-def showAfter (s : Sim) : Op → String
-  | .act .. => s!"C={commaN s.changed}"
+def showInit (out : Outcome) (ok : Bool) (s0 : Sim) : String :=
+  let ndxs := ",".intercalate (s0.ndx.map fun p => s!"{p.1}-{p.2}")
+  s!"init {showOutcome out} ok={if ok then 1 else 0} P={commaN s0.g.indptr} X={commaN s0.g.indices} " ++
+    s!"N={commaN s0.g.nconn} D={commaI s0.g.data} M={showMulti s0.multi} NDX={ndxs}"
+
+def contractOk (net : Net) (s0 : Sim) : Bool :=
+  let hasLoop := net.links.any fun e => e.1 == e.2
+  structOkB net.n net.links s0.g && (hasLoop || (decide s0.Static && net.initOrder.isPerm (List.range net.links.length)))
+
+def showAfter (before s : Sim) (tok : String) : Op → String
+  | .act _ k _ => s!"C={commaN s.changed} V={s.user.getD k 1},{s.internal.getD k 2},{s.status k}"
   | .update => s!"D={commaI s.g.data} C={commaN s.changed}"
-  | .isolated => showIso s
-  | .prepare => s!"D={commaI s.g.data} C={commaN s.changed} {showIso s}"
+  | .isolated =>
+    if tok == "G" then s!"{showIso s} QJ={commaN before.prevIsoJ} QL={commaN before.prevIsoL}" else showIso s
+  | .prepare =>
+    if tok == "P" then s!"D={commaI s.g.data} C={commaN s.changed} {showIso s} QJ={commaN before.prevIsoJ} QL={commaN before.prevIsoL}"
+    else s!"D={commaI s.g.data} C={commaN s.changed} {showIso s}"
+  | .restart => s!"{showInit (startRun before).1 (contractOk s.net s) s} {showIso s}"
+
+def showObs (s : Sim) (tok : String) : String :=
+  if tok == "s" then s!"J={bits s.isoJ} L={bits s.isoL}"
+  else s!"S={commaN s.statuses} J={bits s.isoJ} L={bits s.isoL}"
+
+def parseKind (v : Nat) : LinkKind := if v == 1 then .pump else if v == 2 then .valve else .pipe
+
+def parseNet (n links order sources : String) : Option (Net × List Nat × List Nat) :=
+  match n.trimAscii.toString.toNat? with
+  | none => none
+  | some n =>
+    let ls := (links.splitOn ",").filterMap fun l =>
+      match nats l with
+      | [a, b, v, u, i] => some ((a, b), parseKind v, u, i)
+      | _ => none
+    some ({ n := n, links := ls.map (·.1), kind := ls.map (·.2.1), initOrder := nats order, sources := nats sources },
+          ls.map (·.2.2.1), ls.map (·.2.2.2))
+
+def parseAct (t : String) : Option ActRec :=
+  match parseOp t with
+  | some (.act u k v) => some (u, k, v)
+  | _ => none
+
+def parsePass (t : String) : Option Pass :=
+  match t.splitOn ">" with
+  | [a, b, c] =>
+    let pa := ((a.trimAscii.toString.splitOn " ").filter (!·.isEmpty)).map parseAct
+    let pb := ((b.trimAscii.toString.splitOn " ").filter (!·.isEmpty)).map parseAct
+    if pa.any Option.isNone || pb.any Option.isNone then none
+    else some { pre := pa.filterMap id, post := pb.filterMap id, report := c.trimAscii.toString == "1" }
+  | _ => none
+
+def handleLegs (parts : List String) : String :=
+  match parts with
+  | [n, links, order, sources, legs] =>
+    match parseNet n links order sources with
+    | none => "bad-op"
+    | some (net, user, internal) =>
+      let ls := (legs.splitOn ";").map fun l =>
+        ((l.splitOn "/").filter (fun t => !t.trimAscii.toString.isEmpty)).map parsePass
+      if ls.any (fun l => l.any Option.isNone) then "bad-op"
+      else
+        let rows := (runLegs (freshSim net user internal) (ls.map fun l => l.filterMap id)).2
+        " | ".intercalate (rows.map fun r => s!"S={commaN r.status} J={bits r.isoJ} L={bits r.isoL}")
+  | _ => "bad-op"
 
 def handleNet (parts : List String) : String :=
   match parts with
   | [n, links, order, sources, ops] =>
-    match n.trimAscii.toString.toNat? with
+    match parseNet n links order sources with
     | none => "bad-op"
-    | some n =>
-      let ls := (links.splitOn ",").filterMap fun l =>
-        match nats l with
-        | [a, b, v, u, i] => some ((a, b), v == 1, u, i)
-        | _ => none
-      let net : Net := { n := n, links := ls.map (·.1), valve := ls.map (·.2.1),
-                         initOrder := nats order, sources := nats sources }
-      let (out, s0) := initGraph net (ls.map (·.2.2.1)) (ls.map (·.2.2.2))
-      let hasLoop := net.links.any fun e => e.1 == e.2
-      let ok := structOkB net.n net.links s0.g && (hasLoop || (decide s0.Static && net.initOrder.isPerm (List.range net.links.length)))
-      let ndxs := ",".intercalate (s0.ndx.map fun p => s!"{p.1}-{p.2}")
-      let head := s!"init {showOutcome out} ok={if ok then 1 else 0} P={commaN s0.g.indptr} X={commaN s0.g.indices} " ++
-        s!"N={commaN s0.g.nconn} D={commaI s0.g.data} M={showMulti s0.multi} NDX={ndxs}"
-      let opl := ((ops.trimAscii.toString.splitOn " ").filter (!·.isEmpty)).map parseOp
-      if opl.any Option.isNone then "bad-op"
+    | some (net, user, internal) =>
+      let (out, s0) := initGraph net user internal
+      let head := showInit out (contractOk net s0) s0
+      let toks := (ops.trimAscii.toString.splitOn " ").filter (!·.isEmpty)
+      let isObs := fun (t : String) => t == "s" || t == "r"
+      if toks.any (fun t => !isObs t && (parseOp t).isNone) then "bad-op"
       else
-        let (_, segs) := (opl.filterMap id).foldl (fun (acc : Sim × List String) op =>
-          let s' := step acc.1 op
-          (s', acc.2 ++ [showAfter s' op])) (s0, [head])
+        let (_, segs) := toks.foldl (fun (acc : Sim × List String) t =>
+          if isObs t then (acc.1, acc.2 ++ [showObs acc.1 t])
+          else match parseOp t with
+            | some op =>
+              let s' := step acc.1 op
+              (s', acc.2 ++ [showAfter acc.1 s' t op])
+            | none => acc) (s0, [head])
         " | ".intercalate segs
   | _ => "bad-op"
 
@@ -84,6 +143,7 @@ def handle (line : String) : String :=
       commaI (checkIsolated g (nats src) (ints ind))
     | _ => "bad-op"
   else if line.startsWith "net " then handleNet ((line.drop 4).toString.splitOn "|")
+  else if line.startsWith "legs " then handleLegs ((line.drop 5).toString.splitOn "|")
   else "bad-op"
 
 partial def loop (h : IO.FS.Stream) : IO Unit := do
